@@ -24,6 +24,8 @@ EXPLANATION = (
 
 
 def run(ctx: Ctx) -> None:
+    from ..rules import echelon as _echelon
+    _echelon.arm(ctx)
     from .c11 import rule_inverse_blocks
     rule_inverse_blocks(ctx)
     from ..rules import memo as _memo
